@@ -157,7 +157,7 @@ def run(sim):
     comp = sim.draw_choice(COMPRESSIONS, "compression")
     family = sim.draw_choice(["clean", "tamper"], "family")
     nbanner = sim.draw_weighted([(0, 3), (1, 3), (2, 2), (3, 1)], "nbanner")
-    avoid_banner_split = sim.draw_bool(0.5, "avoid_banner_split") or ALWAYS_AVOID
+    avoid_banner_split = sim.draw_bool(0.1, "avoid_banner_split") or ALWAYS_AVOID
     h.async_verify = sim.draw_bool(0.25, "async_verify")
     early_send = sim.draw_bool(0.3, "early_send")
     seg = sim.draw_choice(["mixed", "whole", "tiny", "big"], "segmentation")
